@@ -425,3 +425,31 @@ package authenticode
 //@   ensures @every_storage_is_followed_by_its_class_id ret0 == nil ==> uid
 //@   loop 0 sig "for _, item := range files" invariant comdoc.cdfOK(cdf) && forall(k, 0, len(files), files[k] != nil) && !uid
 //@   modifies sink d
+//@
+//@ func InsertMSISignature
+//@   property C18 C03
+//@   ghost sigAdded bool = false
+//@   ghost exHandled bool = false
+//@   before call (*comdoc.ComDoc).AddFile(c, n, d): assert @only_the_two_signature_streams_are_written_each_with_its_own_blob c == cdf && !sigAdded && \
+//@        (n == msiDigitalSignature || n == msiDigitalSignatureEx) && (n == msiDigitalSignature ==> sameslice(d, pkcs) && exHandled) && \
+//@        (n == msiDigitalSignatureEx ==> sameslice(d, exsig) && len(exsig) > 0 && !exHandled)
+//@   on call (*comdoc.ComDoc).AddFile(_, n, _) ret (e): sigAdded = sigAdded || (e == nil && n == msiDigitalSignature); exHandled = exHandled || (e == nil && n == msiDigitalSignatureEx)
+//@   before call (*comdoc.ComDoc).DeleteFile(c, n): assert @only_a_stale_extended_signature_is_deleted c == cdf && n == msiDigitalSignatureEx && len(exsig) == 0 && !exHandled && !sigAdded
+//@   on call (*comdoc.ComDoc).DeleteFile(_, n) ret (e): exHandled = exHandled || e == nil
+//@   ensures @signature_stream_written_after_the_extended_one_was_replaced_or_removed ret0 == nil ==> sigAdded && exHandled
+//@
+//@ func DigestMsiTar
+//@   property C18 C09
+//@   ghost cur string = ""
+//@   ghost pending bool = false
+//@   ghost drained bool = false
+//@   on call io/ioutil.ReadAll(_) ret (b, e): drained = (e == nil)
+//@   before call (*archive/tar.Reader).Next(_): assert @every_member_that_is_not_signature_data_was_hashed_before_moving_on !pending
+//@   on call (*archive/tar.Reader).Next(_) ret (h, e): cur = ite(e == nil, h.Name, cur); drained = false; \
+//@        pending = (e == nil && h.Name != msiDigitalSignature && h.Name != msiDigitalSignatureEx && h.Name != msiTarExMeta)
+//@   before call io.Copy(dst, src): assert @both_signature_streams_and_the_metadata_member_stay_out_of_the_content_digest dst == d && src == iface(tr) && \
+//@        cur != msiDigitalSignature && cur != msiDigitalSignatureEx && (cur != msiTarExMeta || drained)
+//@   on call io.Copy(_, _) ret (n, e): pending = pending && e != nil
+//@   before call io/ioutil.ReadAll(src): assert @metadata_member_is_prehashed_only_for_an_extended_signature src == iface(tr) && cur == msiTarExMeta && extended
+//@   ensures @a_digest_only_after_every_member_was_consumed ret1 == nil ==> !pending
+//@   loop 0 invariant !pending
